@@ -5,6 +5,7 @@ from ref import pools, adaptor, ecdsa
 ID = "C14"
 LEVEL = "exploration"
 CONFIGS = {"quick": ["san"], "thorough": ["san", "san_nv", "mx_i64", "mx_i128s"]}
+EXTRA_BUILDS = ["sg13", "sg199"]
 RULE = ("encrypt -> verify -> decrypt -> ECDSA verify -> recover pipelines over pool keys (1, n-1, ...) and messages (0, >= n), default/custom nonce "
         "functions with and without aux; adaptor_verify on honest 162-byte strings and their mutations: single-bit flips (all 1296 for some, sampled "
         "for the rest), each scalar := 0 / n / value+n when it fits, points negated / off-curve / x >= p / bad prefix, other key, other message; "
@@ -159,6 +160,8 @@ def wl_chosen_sp(ctx, config):
                     ctx.check(rec.ret == 0, "adaptor_recover:sp+n:accepted", t.hex(), config)
 
 def run(ctx):
+    from vlib import smallgroup
+    smallgroup.run(ctx, 'adaptor', {'adaptor_sp_reenc': 'accepted', 'adaptor_dleq_s_reenc': 'accepted', 'adaptor_decrypt_sp_reenc': 'accepted'})
     for config in ctx.configs:
         wl_pipeline(ctx, config)
         wl_chosen_sp(ctx, config)
